@@ -498,7 +498,8 @@ theorem rest1_eq (T : Table) (rg rp : RecG) (rm : RecM) (hr : RecOK T rg rm) (L 
     | _ => rw [rest1_fixed T rg rp L auto data a.name i ty acc schema _ hk (by simp)]; simp [deserOne]
 
 theorem maskOf_eq (T : Table) (ty : Option Nat) (acc : Fields) :
-    maskOf? T (.obj ty acc) = (match flagVal T acc with | some (.int m) => some (binRev m) | _ => none) := by
+    maskOf? T (.obj ty acc) = (match flagVal T acc with
+      | some (.int m) => some (binRev m) | some (.bool b) => some (binRev (if b then 1 else 0)) | _ => none) := by
   cases h1 : acc.lookup T.modeKey with
   | none =>
     simp only [maskOf?, flagVal, h1]
@@ -514,6 +515,7 @@ def present (T : Table) (acc : Fields) (a : Arg) : Option Bool :=
   | some (_, bit) =>
     match flagVal T acc with
     | some (.int m) => some (maskBit m bit)
+    | some (.bool b) => some (maskBit (if b then 1 else 0) bit)
     | _ => none
 
 theorem loop1_step (T : Table) (rg rp : RecG) (rm : RecM) (hr : RecOK T rg rm) (L : Nat) (auto : Bool) (data : Bytes)
@@ -532,26 +534,38 @@ theorem loop1_step (T : Table) (rg rp : RecG) (rm : RecM) (hr : RecOK T rg rm) (
   | some p =>
     obtain ⟨fl, bit⟩ := p
     simp only [deserialize_loop1, TyS.isCond, TyS.ofArg, hc, Option.isSome_some, if_true, present, maskOf_eq, TyS.condBit, TyS.strip]
+    have key : ∀ m : Int,
+        ((some (binRev m)).bind fun mask =>
+          if bit ≥ mask.length then some (i, Val.obj ty acc)
+          else (mask[bit]?).bind fun ch_19 =>
+            if ch_19 = 48 then some (i, Val.obj ty acc)
+            else deserialize_rest1 T rg rp L auto data a.name i (Val.obj ty acc) schema ⟨none, a.vec, a.ty⟩) =
+        (match some (maskBit m bit) with
+         | none => none
+         | some false => some (i, .obj ty acc)
+         | some true => stepRes i ty acc a.name (deserArg T auto rm (untouchable T schema a.name) a (data.drop i))) := by
+      intro m
+      have hm := mask_spec m bit
+      simp only [Option.bind_some]
+      by_cases hge : bit ≥ (binRev m).length
+      · simp only [hge, if_true] at hm ⊢
+        rw [← hm]
+      · simp only [hge, if_false] at hm ⊢
+        obtain ⟨ch, hch⟩ : ∃ ch, (binRev m)[bit]? = some ch := by
+          rw [List.getElem?_eq_getElem (by omega)]; exact ⟨_, rfl⟩
+        rw [hch] at hm ⊢
+        simp only [Option.bind_some]
+        by_cases h48 : ch = 48
+        · subst h48; simp at hm; simp [hm]
+        · have : maskBit m bit = true := by rw [← hm]; simp [h48]
+          simp only [h48, if_false, this]
+          exact hrest
     cases hf : flagVal T acc with
     | none => simp
     | some v =>
       cases v with
-      | int m =>
-        have hm := mask_spec m bit
-        simp only [Option.bind_some]
-        by_cases hge : bit ≥ (binRev m).length
-        · simp only [hge, if_true] at hm ⊢
-          rw [← hm]
-        · simp only [hge, if_false] at hm ⊢
-          obtain ⟨ch, hch⟩ : ∃ ch, (binRev m)[bit]? = some ch := by
-            rw [List.getElem?_eq_getElem (by omega)]; exact ⟨_, rfl⟩
-          rw [hch] at hm ⊢
-          simp only [Option.bind_some]
-          by_cases h48 : ch = 48
-          · subst h48; simp at hm; simp [hm]
-          · have : maskBit m bit = true := by rw [← hm]; simp [h48]
-            simp only [h48, if_false, this]
-            exact hrest
+      | int m => exact key m
+      | bool b => exact key (if b then 1 else 0)
       | _ => simp
 
 /-- the untouchables test of the model -/
